@@ -15,7 +15,7 @@ theorem C01_order (i : MergeInput) (h : DomOrder i = true) (hs : i.k.isStoryLeve
 
 /-- C01, second sentence: moves and swaps never add or lose a story — for EVERY input (no
     hypothesis on the running order or the message; also when the merge raises). -/
-theorem C01_perm (i : MergeInput) (hs : i.k.isStoryLevel = true) :
+theorem C01_perm (i : MergeInput) (_hs : i.k.isStoryLevel = true) :
     holdsPerm i (addK i.k i.d i.m) = true :=
   perm_any i
 
